@@ -495,6 +495,7 @@ def run(ck):
             continue
         sim, hub, (p1, p2) = S.make_star(base + 88 + fi, peers=2)
         sim.case = {'flood_between_two_steps_of_a_handshake': role, 'requests': nflood}
+        hub.ctl.cookie_threshold = 10          # set, not inherited: the family's floor counts the half-open IKE_SAs a flood leaves below the threshold
         died = []
         sim.monitors.append(lambda s_, ep, rec: died.append(rec) if (rec.died and ep is hub) else None)
         rngf = ck.rng('flood', n)
